@@ -663,7 +663,8 @@ pub fn script_scenario(prop: &str, shape: Shape, scripts: Vec<Vec<Op>>, oracle: 
                       let ok = if shape == Shape::CombineLatest {
                         (i == pi + 1 && j == pj) || (i == pi && j == pj + 1)
                       } else {
-                        i > pi && j >= pj
+                        // once the secondary input has a value every main item is used
+                        i == pi + 1 && j >= pj
                       };
                       if !ok {
                         bad = Some(format!("combination ({},{}) after ({},{}) is not what one further arrival gives", a_items[i], b_items[j], a_items[pi], b_items[pj]));
@@ -747,8 +748,19 @@ pub fn script_scenario(prop: &str, shape: Shape, scripts: Vec<Vec<Op>>, oracle: 
             .map(|c| c.start)
             .min()
             .unwrap_or(u64::MAX);
+          if shape == Shape::WithLatestFrom {
+            // a main item that arrives when the secondary input has delivered a value is used
+            for c in ac.iter().filter(|c| c.end < quiet_until) {
+              if bc.iter().any(|b| b.end < c.start) && !got.iter().any(|v| v / 1000 == val(c)) {
+                bad = Some(format!(
+                  "next({}) on the main input started after the secondary input had delivered a value, yet no combination with {} came out",
+                  val(c), val(c)
+                ));
+              }
+            }
+          }
           match shape {
-            Shape::WithLatestFrom | Shape::CombineLatest => {
+            Shape::WithLatestFrom | Shape::CombineLatest if bad.is_none() => {
               let mut prev: Option<(usize, usize)> = None;
               for v in &got {
                 let (i, j) = (idx(&a_items, v / 1000).unwrap(), idx(&b_items, v % 1000).unwrap());
@@ -785,17 +797,31 @@ pub fn script_scenario(prop: &str, shape: Shape, scripts: Vec<Vec<Op>>, oracle: 
               }
             }
             Shape::Sample => {
-              // a tick that no source call overlaps releases the newest item that
-              // had arrived before it, unless an earlier tick already did
+              // a tick releases what is pending: the newest item that had arrived
+              // before the tick started (unless an earlier tick already released
+              // it) or an item whose arrival overlaps the tick and superseded it
+              let evs = p0.evs();
               for t in bc.iter().filter(|t| t.end < quiet_until) {
-                if ac.iter().any(|c| c.start < t.end && c.end > t.start) {
-                  continue;
-                }
                 if let Some(x) = ac.iter().rev().find(|c| c.end < t.start) {
-                  if !got.contains(&val(x)) {
+                  // (or something newer, which had superseded it, was)
+                  let xi = idx(&a_items, val(x)).unwrap();
+                  let released_before = evs.iter().any(|e| {
+                    e.enter < t.start && matches!(e.note, Note::N(v) if idx(&a_items, v).map_or(false, |k| k >= xi))
+                  });
+                  if released_before {
+                    continue;
+                  }
+                  let overlapping: Vec<Item> =
+                    ac.iter().filter(|c| c.start < t.end && c.end > t.start).map(|c| val(c)).collect();
+                  let in_tick: Vec<Item> = evs
+                    .iter()
+                    .filter(|e| e.enter > t.start && e.enter < t.end)
+                    .filter_map(|e| if let Note::N(v) = e.note { Some(v) } else { None })
+                    .collect();
+                  if !in_tick.iter().any(|v| *v == val(x) || overlapping.contains(v)) {
                     bad = Some(format!(
-                      "next({}) had returned before the tick {:?} started and nothing newer arrived before it ended, yet {} was never released",
-                      val(x), t.op, val(x)
+                      "next({}) had returned before the tick {:?} started and had not been released yet; the tick delivered {in_tick:?} (arrivals overlapping the tick: {overlapping:?})",
+                      val(x), t.op
                     ));
                   }
                 }
@@ -1845,6 +1871,67 @@ pub fn share_leave_scenario(bound: u32, max_execs: u64) -> Scenario {
   }
 }
 
+/// B is subscribed; one thread unsubscribes B while another subscribes A and
+/// then emits 1; afterwards the main task emits 2. A has either joined a share
+/// that B's leaving had already released (it receives nothing, ever) or it is a
+/// present subscriber — witnessed by its having received 1 — and then receives 2
+/// as well.
+pub fn share_join_scenario(bound: u32, max_execs: u64) -> Scenario {
+  Scenario {
+    name: format!("share_threads: B leaves || (A subscribes, emit 1), then emit 2, A leaves, emit 3 c<={bound}"),
+    sig: "share_threads".into(),
+    bound,
+    max_execs,
+    body: Arc::new(move |ctx: &Arc<Ctx>, out: &mut Out| {
+      let mut src = Subj::default();
+      let taps = Arc::new(AtomicUsize::new(0));
+      let t2 = taps.clone();
+      let shared = src
+        .clone()
+        .tap(move |_| {
+          t2.fetch_add(1, Ordering::SeqCst);
+        })
+        .share_threads();
+      let (pa, pb) = (TProbe::new("a", ctx), TProbe::new("b", ctx));
+      let ub = shared.clone().actual_subscribe(pb.clone());
+      let tb = shuttle::thread::spawn(move || ub.unsubscribe());
+      let (sa, pa2, mut src2) = (shared.clone(), pa.clone(), src.clone());
+      let ta = shuttle::thread::spawn(move || {
+        let u = sa.actual_subscribe(pa2);
+        src2.next(1);
+        u
+      });
+      tb.join().unwrap();
+      let ua = ta.join().unwrap();
+      src.next(2);
+      let a = pa.notes();
+      if !(a.is_empty() || a == vec![Note::N(1), Note::N(2)]) {
+        ctx.fail(
+          "C11:multicast:share_threads",
+          format!(
+            "A subscribed while B was leaving, then the source emitted 1 and (after both calls had returned) 2: A, still subscribed, saw [{}] (B saw [{}])",
+            fmt_notes(&a),
+            fmt_notes(&pb.notes())
+          ),
+        );
+      }
+      if pb.notes().contains(&Note::N(2)) {
+        ctx.fail("C11:multicast:share_threads", format!("delivered to a subscriber that had left: B [{}]", fmt_notes(&pb.notes())));
+      }
+      ua.unsubscribe();
+      let t1 = taps.load(Ordering::SeqCst);
+      src.next(3);
+      if taps.load(Ordering::SeqCst) != t1 {
+        ctx.fail("C11:driven-after-last-unsubscribe:share_threads", "the upstream tap ran after the last subscriber had left");
+      }
+      out.delivered = (pa.notes().len() + pb.notes().len()) as u64 + 1;
+      out.note(&pa.notes());
+      out.note(&pb.notes());
+      out.trace.push(format!("A [{}] B [{}]", fmt_notes(&pa.notes()), fmt_notes(&pb.notes())));
+    }),
+  }
+}
+
 // ----------------------------------------------------------- plans
 
 pub struct Plan {
@@ -1999,8 +2086,12 @@ pub fn plan(prop: &str, tier: Tier) -> Option<Plan> {
         for s in [
           vec![vec![Op::NextA(1), Op::CompleteA], vec![Op::NextA(2)]],
           vec![vec![Op::NextA(1), Op::NextA(2)], vec![Op::Unsubscribe]],
+          // the failing source against the pool tasks that are still delivering
+          vec![vec![Op::NextA(1), Op::ErrorA]],
+          vec![vec![Op::NextA(1), Op::NextA(2), Op::ErrorA]],
         ] {
-          sc.push(script_scenario("C10", shape, s, Oracle::Serialise, if q { 1 } else { 2 }, CAP));
+          let one = s.len() == 1;
+          sc.push(script_scenario("C10", shape, s, Oracle::Serialise, if q && !one { 1 } else { 2 }, CAP));
         }
       }
       Some(Plan {
@@ -2032,11 +2123,34 @@ pub fn plan(prop: &str, tier: Tier) -> Option<Plan> {
       // composite's: is_closed() concurrent with such an emission can dead-lock.
       // No stated property covers is_closed() calls racing with emissions for
       // blocking; see DESIGN §10, observations)
-      for shape in [Shape::Subject, Shape::Merge, Shape::Zip, Shape::Finalize] {
+      for shape in [
+        Shape::Subject,
+        Shape::Merge,
+        Shape::Zip,
+        Shape::Finalize,
+        // composite handles: the source's subscription paired with the handles of
+        // the tasks scheduled on the subscriber's behalf, or with a second input's
+        Shape::Delay,
+        Shape::ObserveOn,
+        Shape::Debounce,
+        Shape::Throttle,
+        Shape::SubscribeOn,
+        Shape::DelaySubscription,
+        Shape::CombineLatest,
+        Shape::WithLatestFrom,
+        Shape::TakeUntil,
+        Shape::SkipUntil,
+        Shape::Sample,
+        Shape::Buffer,
+        Shape::Share,
+      ] {
         for s in [
           vec![vec![Op::NextA(1), Op::CompleteA], vec![Op::IsClosed, Op::IsClosed]],
           vec![vec![Op::NextA(1), Op::ErrorA], vec![Op::IsClosed]],
         ] {
+          // every scheduled notification is a pool task of its own: one preemption
+          // less keeps those scenarios below the schedule cap in the thorough tier
+          let cs = if shape.uses_pool() { cs.min(2) } else { cs };
           if shape.two_inputs() && s[0].contains(&Op::CompleteA) {
             sc.push(script_scenario("C17", shape, vec![vec![Op::NextA(1), Op::CompleteA, Op::CompleteB], vec![Op::IsClosed, Op::IsClosed]], Oracle::Serialise, cs, CAP));
           } else {
@@ -2046,7 +2160,7 @@ pub fn plan(prop: &str, tier: Tier) -> Option<Plan> {
       }
       Some(Plan {
         scenarios: sc,
-        rule: "MultiSubscriptionThreads shared by one or two threads appending a live child each and one thread unsubscribing the composite through a clone; every schedule within the preemption bound; oracle once all calls have returned: every remaining handle reports closed and every child has been unsubscribed, whichever of append / unsubscribe came first; and a thread sampling is_closed() on the subscription of a subject / merge_threads / zip_threads / finalize_threads pipeline while another thread emits and terminates the source: nothing is delivered after a call answered true, and no later call answers false".into(),
+        rule: "MultiSubscriptionThreads shared by one or two threads appending a live child each and one thread unsubscribing the composite through a clone; every schedule within the preemption bound; oracle once all calls have returned: every remaining handle reports closed and every child has been unsubscribed, whichever of append / unsubscribe came first; and a thread sampling is_closed() on the subscription of a subject / finalize_threads / share_threads pipeline, of every two-input _threads combinator and of every scheduler-using operator on a controlled pool (delay, observe_on, debounce, throttle_time, subscribe_on, delay_subscription) while another thread emits and terminates the source: nothing is delivered after a call answered true, and no later call answers false".into(),
         bounds: json!({"preemptions": c}),
         assumptions: vec!["sequentially consistent memory".into()],
       })
@@ -2055,9 +2169,10 @@ pub fn plan(prop: &str, tier: Tier) -> Option<Plan> {
       let c = if q { 3 } else { 6 };
       sc.push(share_scenario(c, CAP));
       sc.push(share_leave_scenario(c, CAP));
+      sc.push(share_join_scenario(c, CAP));
       Some(Plan {
         scenarios: sc,
-        rule: "share_threads over a hot source behind a counting tap: two threads subscribe concurrently (one of them connects), then A leaves, the source emits, B leaves, the source emits; every schedule of the two joins within the preemption bound; oracle: one source subscription, each subscriber sees exactly the items emitted while it was present, the upstream is not driven after the last leaver; and A joining while B joins and leaves again: A then either receives what the source emits or the share had already released its source (never: source driven, A present, nothing delivered)".into(),
+        rule: "share_threads over a hot source behind a counting tap: two threads subscribe concurrently (one of them connects), then A leaves, the source emits, B leaves, the source emits; every schedule of the two joins within the preemption bound; oracle: one source subscription, each subscriber sees exactly the items emitted while it was present, the upstream is not driven after the last leaver; and A joining while B joins and leaves again: A then either receives what the source emits or the share had already released its source (never: source driven, A present, nothing delivered); and A subscribing and the source emitting while B leaves: a subscriber that received one item and has not left receives the next one too".into(),
         bounds: json!({"preemptions": c}),
         assumptions: vec!["sequentially consistent memory".into()],
       })
@@ -2111,7 +2226,7 @@ pub fn plan(prop: &str, tier: Tier) -> Option<Plan> {
       }
       Some(Plan {
         scenarios: sc,
-        rule: "the two inputs of merge/zip/combine_latest/with_latest_from/take_until/skip_until/sample/buffer (_threads forms) driven by one thread each (items then completion); every schedule within the preemption bound; oracle on the final state, which the definitions fix whatever the interleaving: the output has completed exactly when the definition says so (merge/zip/combine_latest: both inputs; the others: the main input), merge delivered every item of both inputs exactly once and each input's items in its own order; zip's i-th output is the pair of the i-th items and there are exactly min(|a|,|b|) of them; the combinations of combine_latest advance one input by one item per output and end with the latest values of both; with_latest_from uses each main item at most once, in order, with a non-decreasing partner; take_until's output is a prefix and skip_until's a gap-free suffix of the main input; the concatenated buffers of buffer(notifier) are a prefix of (on completion: all of) the main input; sample delivers source items only, at most once, in order; notification grammar, no overlapping callbacks, every call returns".into(),
+        rule: "the two inputs of merge/zip/combine_latest/with_latest_from/take_until/skip_until/sample/buffer (_threads forms) driven by one thread each (items then completion); every schedule within the preemption bound; oracle on the final state, which the definitions fix whatever the interleaving: the output has completed exactly when the definition says so (merge/zip/combine_latest: both inputs; the others: the main input), merge delivered every item of both inputs exactly once and each input's items in its own order; zip's i-th output is the pair of the i-th items and there are exactly min(|a|,|b|) of them; the combinations of combine_latest advance one input by one item per output and end with the latest values of both; with_latest_from uses every main item from the first combined one on exactly once, in order, with a non-decreasing partner, and every main item that arrives after the secondary input has delivered a value; take_until's output is a prefix and skip_until's a gap-free suffix of the main input; the concatenated buffers of buffer(notifier) are a prefix of (on completion: all of) the main input; sample delivers source items only, at most once, in order, and a tick that starts while an item is pending delivers that item or one whose arrival overlaps the tick; notification grammar, no overlapping callbacks, every call returns".into(),
         bounds: json!({"preemptions": c}),
         assumptions: vec!["sequentially consistent memory".into()],
       })
